@@ -60,7 +60,11 @@ def evaluate(rid, props, tier, seed):
             env = dict(os.environ, HPOTK_REPO=wt)
             if seed is not None:
                 env['VERIF_SEED'] = str(seed)
-            p = subprocess.run([os.path.join(VERIF, 'check'), pid, '--tier', tier, '--no-proof'], capture_output=True, text=True, env=env, cwd=VERIF)
+            try:
+                p = subprocess.run([os.path.join(VERIF, 'check'), pid, '--tier', tier, '--no-proof'], capture_output=True, text=True, env=env, cwd=VERIF, timeout=2400)
+            except subprocess.TimeoutExpired:
+                out[pid] = {'exit': 'timeout', 'violations': 0, 'what': [], 'tail': 'no result within 40 minutes'}
+                continue
             viol = re.findall(r'^VIOLATION property=\S+ replay=(\S+)(.*)$', p.stdout, flags=re.M)
             whats = []
             for path, _ in viol[:3]:
